@@ -4,7 +4,8 @@
    order tables are a parameter T : lextab; coq/gen/C14/Tab.v instantiates it
    from /repo on every run and proves tab_ok there. *)
 From Coq Require Import List Bool ZArith NArith.
-From PT Require Import Sem.Values Lang.Syntax Lang.Lex Lang.LexProofs Lang.Cache Lang.CacheProofs.
+From PT Require Import Sem.Values Lang.Syntax Lang.Lex Lang.LexProofs Lang.Cache Lang.CacheProofs
+  Lang.CacheSound.
 Import ListNotations.
 Open Scope Z_scope.
 
@@ -80,16 +81,53 @@ Theorem C14_arg_hash_respects : forall T H HT a b,
 Proof. exact arg_hash_respects. Qed.
 Print Assumptions C14_arg_hash_respects.
 
-(* the construction cache is NOT invisible; rebuilding from spec/ident is NOT
-   total on well-formed items *)
-Theorem C14_cache_transparent_refuted : ~ cache_transparent.
-Proof. exact cache_transparent_refuted. Qed.
-Print Assumptions C14_cache_transparent_refuted.
-Theorem C14_cache_visible_every_maxlen : forall ml, (1 <= ml)%nat ->
-  transparent_b 20 ml [w_make] w_rebuild = false /\
-  transparent_b 20 ml [w_make] w_rebuild_spec = false.
-Proof. exact cache_visible_every_maxlen. Qed.
-Print Assumptions C14_cache_visible_every_maxlen.
-Theorem C14_rebuild_refuted : ~ rebuild_ok.
-Proof. exact rebuild_refuted. Qed.
-Print Assumptions C14_rebuild_refuted.
+(* ---- the construction cache (current code: /repo 581cf1c) ----
+   Histories are lists of constructor calls on Python-like argument values;
+   [hist_wf]/[args_wf] only say that instance arguments are well-formed items
+   (every Python instance is).  Fuel is a device of the model: with
+   fuel >= size of the arguments + 2 no call starves. *)
+Theorem C14_cache_transparent : forall ml fuel h o,
+  hist_wf h = true -> args_wf (snd o) = true -> (pvsizes (snd o) + 2 <= fuel)%nat ->
+  let st := snd (run fuel (cached ml) h empty) in
+  let r := fst (call fuel (cached ml) (fst o) (snd o) st) in
+  r <> Fuel /\ r = build0 fuel (fst o) (snd o) /\ Den (fst o) (snd o) r.
+Proof. exact cache_transparent_total. Qed.
+Print Assumptions C14_cache_transparent.
+
+(* hits return items equal to what a miss would build *)
+Theorem C14_cache_hit_sound : forall ml fuel h K args v, hist_wf h = true ->
+  lookup (cached ml) (snd (run fuel (cached ml) h empty)) (cls_name K, args) = Some v ->
+  wf_item v = true /\ Den K args (OK v).
+Proof. exact cache_hit_sound. Qed.
+Print Assumptions C14_cache_hit_sound.
+
+(* rebuild: construct_cls (spec i) = OK i and construct (ident i) = OK i for
+   every well-formed item, system predicates included *)
+Theorem C14_rebuild : forall a fuel, wf_item a = true ->
+  ((pvsizes (spec_args a) + 2 <= fuel)%nat -> rebuild_spec fuel a = OK a) /\
+  ((pvsizes [ident_pv a] + 2 <= fuel)%nat -> rebuild_ident fuel a = OK a).
+Proof. exact rebuild_total. Qed.
+Print Assumptions C14_rebuild.
+
+Theorem C14_rebuild_cached : forall ml fuel h a, hist_wf h = true -> wf_item a = true ->
+  let st := snd (run fuel (cached ml) h empty) in
+  ((pvsizes (spec_args a) + 2 <= fuel)%nat ->
+     fst (call fuel (cached ml) (item_cls a) (spec_args a) st) = OK a) /\
+  ((pvsizes [ident_pv a] + 2 <= fuel)%nat ->
+     fst (call fuel (cached ml) CLexicalAbc [ident_pv a] st) = OK a).
+Proof. exact rebuild_cached_total. Qed.
+Print Assumptions C14_rebuild_cached.
+
+(* ---- the code before the repair (sysfix := false): the same statements are
+   refuted, i.e. the theorems above discriminate ---- *)
+Theorem C14_old_cache_transparent_refuted : ~ cache_transparent_old.
+Proof. exact cache_transparent_old_refuted. Qed.
+Print Assumptions C14_old_cache_transparent_refuted.
+Theorem C14_old_cache_visible_every_maxlen : forall ml, (1 <= ml)%nat ->
+  transparent_old_b 20 ml [w_make] w_rebuild = false /\
+  transparent_old_b 20 ml [w_make] w_rebuild_spec_old = false.
+Proof. exact cache_visible_every_maxlen_old. Qed.
+Print Assumptions C14_old_cache_visible_every_maxlen.
+Theorem C14_old_rebuild_refuted : ~ rebuild_ok_old.
+Proof. exact rebuild_old_refuted. Qed.
+Print Assumptions C14_old_rebuild_refuted.
